@@ -26,6 +26,22 @@ Nodes are lists:
     ['einfo', id, form]                  the template itself reads error_type / error_value /
                                          error_tb (form var|expr|tb|ifexpr|item), guarded by a
                                          dtml-if so that it renders '[-]' where they are not bound
+    ['via', carrier, form, home, target, body|None, else|None]
+                                         the harness object `target` (a probe / boom / vboom / sub
+                                         node) is evaluated by ANOTHER tag than a plain dtml-var:
+                                         carrier var|varnull|varsize|entity|call|if|elif|unless|in|
+                                         with|let|return; form name (looked up and called by the
+                                         namespace) | expr | qexpr (called from the tag's expression);
+                                         home (name form): where the namespace finds the name: top |
+                                         withobj | withmap | rowmap | rowobj (attribute of a dtml-with
+                                         object, key of a dtml-with mapping, key / attribute of the
+                                         current dtml-in item).  Python reading: the target is an
+                                         ordinary call in the tag's expression position, so whatever
+                                         it raises propagates from there like from any other statement
+    ['pboom', id, cls, msg]              via target only: a namespace VALUE (not callable) whose
+                                         __str__ / __bool__ / second item access raises cls(msg); the
+                                         carrier decides which of the three the tag needs (inserting:
+                                         text; condition: truth; dtml-in: items)
 
 Data-dependent nodes read a variable of the current *environment* (the namespace of this
 render, or the row of the innermost enclosing ['vin'] loop; a row that does not define a
@@ -79,7 +95,7 @@ Unknown.__name__ = '?'
 
 CUSTOM = {'E1': E1, 'E2': E2, 'E3': E3, 'Other': Other, 'E12': E12}
 BUILTIN_NAMES = ['KeyError', 'IndexError', 'LookupError', 'ValueError', 'ZeroDivisionError',
-                 'ArithmeticError', 'RuntimeError', 'Exception', 'AttributeError', 'TypeError']
+                 'ArithmeticError', 'RuntimeError', 'Exception', 'AttributeError', 'TypeError', 'NameError']
 ZEXC_NAMES = ['NotFound', 'BadRequest', 'Forbidden', 'Redirect', 'Unauthorized',
               'InternalError', 'HTTPException']
 UNKNOWN_NAMES = ['NoSuchErrorAtAll', 'Input Error']   # the second one is the DT_Raise docstring example
@@ -139,6 +155,8 @@ def _src(n, style):
         return '<dtml-var "boom(\'%s\', \'%s\', \'%s\', %d, _)">' % (n[1], n[2], n[3], n[4])
     if k == 'einfo':
         return EINFO_SRC[n[2]] % {'id': n[1]}
+    if k == 'via':
+        return _via_src(n, to_src)
     if k == 'vraise':
         mode, var = n[1], n[2]
         if mode == 'expr':
@@ -238,6 +256,125 @@ def _src(n, style):
     raise ValueError('unknown node %r' % (n,))
 
 
+# ---------------------------------------------------------------- carriers
+# Tags (other than a plain <dtml-var name>) that evaluate a name / an expression.  A raising
+# callable or sub-template is an ordinary call in that position.
+CARRIERS = ['var', 'varnull', 'varsize', 'entity', 'call', 'if', 'elif', 'unless', 'in', 'with', 'let',
+            'return']
+BLOCK_CARRIERS = ['if', 'elif', 'unless', 'in', 'with', 'let']
+HOMES = ['top', 'withobj', 'withmap', 'rowmap', 'rowobj']
+HOME_SRC = {'top': ('', ''),
+            'withobj': ('<dtml-with hobj_%s>', '</dtml-with>'),
+            'withmap': ('<dtml-with hmap_%s mapping>', '</dtml-with>'),
+            'rowmap': ('<dtml-in hrows_%s mapping>', '</dtml-in>'),
+            'rowobj': ('<dtml-in hitems_%s>', '</dtml-in>')}
+NULL_TEXT = 'NUL'
+
+
+def carrier_forms(carrier):
+    if carrier == 'entity':
+        return ['name']                 # &dtml-name; takes a name only
+    if carrier == 'let':
+        return ['name', 'qexpr']        # dtml-let v=name | v="expr"
+    return ['name', 'expr', 'qexpr']
+
+
+def target_name(t):
+    """Namespace name under which a target is rendered by name."""
+    k = t[0]
+    if k == 'probe':
+        return 'P_' + t[1]
+    if k in ('boom', 'vboom'):
+        return 'X_' + t[1]
+    if k == 'pboom':
+        return 'PB_' + t[1]
+    if k == 'sub':
+        return {'var': 'sub_', 'call': 'C_', 'fresh': 'F_'}[t[2]] + t[1]
+    raise ValueError('not a target %r' % (t,))
+
+
+PROTO_OF = {'var': 'str', 'varnull': 'str', 'varsize': 'str', 'entity': 'str',
+            'if': 'bool', 'elif': 'bool', 'unless': 'bool', 'in': 'seq'}
+
+
+def target_expr(t):
+    """Expression calling the target (the text used by probe style 'expr' too)."""
+    k = t[0]
+    if k == 'probe':
+        return "probe('%s', _)" % t[1]
+    if k == 'boom':
+        return "boom('%s', '%s', '%s', %d, _)" % (t[1], t[2], t[3], t[4])
+    if k == 'vboom':
+        return "vboom('%s', '%s', _)" % (t[1], t[2])
+    if k == 'pboom':
+        return 'PB_' + t[1]                  # the value itself: the tag applies the protocol
+    if k == 'sub':
+        if t[2] == 'var':
+            return "_['sub_%s']" % t[1]      # namespace item access calls the template
+        return "%s('%s', _)" % ('callsub' if t[2] == 'call' else 'callfresh', t[1])
+    raise ValueError('not a target %r' % (t,))
+
+
+def via_name(n):
+    """Name the carrier tag of a name-form via node refers to: dtml-in needs a sequence and
+    dtml-with an object, so the harness offers L<name> (one-element list of the target's value)
+    and O<name> (an object holding it) for those."""
+    nm = target_name(n[4])
+    if n[4][0] == 'pboom':
+        return nm
+    if n[1] == 'in':
+        return 'L' + nm
+    if n[1] == 'with':
+        return 'O' + nm
+    return nm
+
+
+def _via_src(n, to_src):
+    carrier, form, home, t, body, els = n[1:7]
+    if form == 'name':
+        ref = lref = via_name(n)
+    else:
+        ex = target_expr(t)
+        if t[0] == 'pboom':
+            pass
+        elif carrier == 'in':
+            ex = '[%s]' % ex
+        elif carrier == 'with':
+            ex = 'box(%s)' % ex
+        ref = ('expr="%s"' if form == 'expr' else '"%s"') % ex
+        lref = '"%s"' % ex
+    b = to_src(body) if body is not None else ''
+    e = '<dtml-else>' + to_src(els) if els is not None else ''
+    if carrier == 'var':
+        s = '<dtml-var %s>' % ref
+    elif carrier == 'varnull':
+        s = '<dtml-var %s null="%s">' % (ref, NULL_TEXT)
+    elif carrier == 'varsize':
+        s = '<dtml-var %s size=99999>' % ref
+    elif carrier == 'entity':
+        s = '&dtml-%s;' % ref
+    elif carrier == 'call':
+        s = '<dtml-call %s>' % ref
+    elif carrier == 'if':
+        s = '<dtml-if %s>%s%s</dtml-if>' % (ref, b, e)
+    elif carrier == 'elif':
+        s = '<dtml-if t_false>[no]<dtml-elif %s>%s%s</dtml-if>' % (ref, b, e)
+    elif carrier == 'unless':
+        s = '<dtml-unless %s>%s</dtml-unless>' % (ref, b)
+    elif carrier == 'in':
+        s = '<dtml-in %s>%s</dtml-in>' % (ref, b)
+    elif carrier == 'with':
+        s = '<dtml-with %s>%s</dtml-with>' % (ref, b)
+    elif carrier == 'let':
+        s = '<dtml-let lv=%s>%s</dtml-let>' % (lref, b)
+    elif carrier == 'return':
+        s = '<dtml-return %s>' % ref
+    else:
+        raise ValueError(carrier)
+    pre, post = HOME_SRC[home if form == 'name' else 'top']
+    return (pre % via_name(n) if pre else '') + s + post
+
+
 # dtml-with spellings.  wobj: an object without the names a block needs; wmap: a small mapping;
 # ns_obj / ns_map: an object / a mapping holding the whole top-level namespace of this render.
 WITH_SRC = {'obj': '<dtml-with wobj>',
@@ -297,6 +434,14 @@ def children(n):
     k = n[0]
     if k in ('raise', 'vraise'):
         return [('raise body', n[3])]
+    if k == 'via':
+        out = [('via target', [n[4]])]
+        role = {'if': 'if', 'elif': 'if', 'unless': 'unless', 'in': 'in', 'with': 'with', 'let': 'let'}
+        if n[5] is not None:
+            out.append((role[n[1]], n[5]))
+        if n[6] is not None:
+            out.append(('if else', n[6]))
+        return out
     if k == 'vif':
         out = [('if', n[2])]
         if n[3] is not None:
@@ -352,7 +497,7 @@ def has_fallible_raise_body(case):
     """Does some raise body contain anything that can raise (statement silent on that)?"""
     for tree in [case['tree']] + list(case.get('subs', {}).values()):
         for n, inside in walk(tree):
-            if 'raise body' in inside and n[0] in ('raise', 'boom', 'sub', 'vraise', 'vboom'):
+            if 'raise body' in inside and n[0] in ('raise', 'boom', 'sub', 'vraise', 'vboom', 'pboom'):
                 return True
     return False
 
@@ -378,9 +523,10 @@ class MExc(Exception):
 class MRet(BaseException):
     """A modelled dtml-return: not an exception for the handlers, exactly like Python's return."""
 
-    def __init__(self, key):
+    def __init__(self, key, value=None):
         BaseException.__init__(self, key)
         self.key = key
+        self.value = RV[key] if key is not None else value
 
 
 def handler_matches(names, cls):
@@ -432,7 +578,7 @@ class Model:
             return self.block(nodes)
         except MRet as r:
             self.stat('call ended by return')
-            return RV[r.key]
+            return r.value
 
     def block(self, nodes, kind=None):
         self.nact += 1
@@ -516,6 +662,8 @@ class Model:
             return '{%s}' % n[1]
         if k == 'einfo':
             return self.do_einfo(n, tok)
+        if k == 'via':
+            return self.do_via(n)
         if k == 'boom':
             c = self.booms[n[1]] = self.booms.get(n[1], 0) + 1
             self.trace.append(['b', n[1], self.cur(), tok])
@@ -590,6 +738,66 @@ class Model:
         if k == 'sub':
             return self.do_sub(n)
         raise ValueError('unknown node %r' % (n,))
+
+    def do_via(self, n):
+        """A harness object evaluated by a tag other than a plain dtml-var.  The target is a call
+        in the expression position of the Python statement of the same name (``if f():``,
+        ``for x in [f()]:``, ``return f()``, a bare ``f()`` for dtml-call ...): what it raises
+        propagates from there, what it gives decides / is inserted / is returned."""
+        carrier, form, home, target, body, els = n[1:7]
+        if form != 'name':
+            home = 'top'
+        self.nact += 1
+        tok = self.nact         # the tag may evaluate its target at a stack depth of its own
+        try:
+            if target[0] == 'sub':
+                val = self.do_sub(target, raw=True)
+            elif target[0] == 'pboom':
+                # a value whose text / truth / items the tag needs, and asking for them raises
+                proto = PROTO_OF[carrier]
+                if proto == 'seq':
+                    self.block(body, 'in')          # the first item is fine
+                self.trace.append(['o', target[1], proto])
+                self.note_inside('raise')
+                self.stat('raise by a value the tag asks for its ' + proto)
+                raise MExc(resolve(target[2]), target[3])
+            else:
+                val = self.node(target, tok)
+        except MExc:
+            self.stat('via: target raised, carrier %s/%s' % (carrier, form))
+            self.stat('via: target raised, found in ' + home)
+            raise
+        self.stat('via: target gave a value, carrier %s/%s' % (carrier, form))
+        self.stat('via: target gave a value, found in ' + home)
+        if carrier in ('var', 'varsize', 'entity'):
+            return val if isinstance(val, str) else str(val)
+        if carrier == 'varnull':
+            # DT_Var docstring: null values are None, or false values whose text is empty
+            if val is None or (not val and str(val) == ''):
+                self.stat('via: null text inserted')
+                return NULL_TEXT
+            if not val and val != 0:
+                return WILD         # false, text not empty, not zero: the documentation is unclear
+            return val if isinstance(val, str) else str(val)
+        if carrier == 'call':
+            return ''
+        if carrier in ('if', 'elif'):
+            self.stat('via: condition %s' % bool(val))
+            if val:
+                return self.block(body, 'if')
+            return self.block(els, 'if else') if els is not None else ''
+        if carrier == 'unless':
+            self.stat('via: condition %s' % bool(val))
+            return self.block(body, 'unless') if not val else ''
+        if carrier == 'in':
+            return self.block(body, 'in')           # a sequence of one item
+        if carrier in ('with', 'let'):
+            return self.block(body, carrier)
+        if carrier == 'return':
+            self.note_inside('return')
+            self.stat('return of a value computed by a harness call')
+            raise MRet(None, val)
+        raise ValueError(carrier)
 
     def do_raise(self, n, mode, name):
         cls = resolve(name) if name else None
@@ -694,7 +902,7 @@ class Model:
                 raise
         return out + fin
 
-    def do_sub(self, n):
+    def do_sub(self, n, raw=False):
         key, route = n[1], n[2]
         self.stat('sub-template call route ' + route)
         self.kinds.append('sub-template')
@@ -714,6 +922,10 @@ class Model:
             self.kinds.pop()
         if route != 'var':
             self.trace.append(['sub<', key, ['val', enc(res)]])
+        if raw:
+            # the value the evaluating tag gets: the call result itself when the namespace calls
+            # the template, the harness wrapper's text (type marker for non-strings) otherwise
+            return res if route == 'var' or isinstance(res, str) else '<%s>' % type(res).__name__
         return sub_text(res, route)
 
 
@@ -1106,8 +1318,43 @@ class RandomTrees:
             return ['einfo', self.ids('i'), rng.choice(EFORMS)]
         return ['probe', self.ids()]
 
+    VIA_CLASSES = ['E1', 'E2', 'E3', 'Other', 'E12', 'KeyError', 'KeyError', 'IndexError', 'AttributeError',
+                   'NameError', 'LookupError', 'ValueError', 'TypeError', 'NotFound']
+
+    def via_simple_target(self, carrier=None):
+        rng = self.rng
+        if carrier in PROTO_OF and rng.random() < 0.15:
+            return ['pboom', self.ids('o'), rng.choice(self.VIA_CLASSES), 'm-' + self.ids('m')]
+        if rng.random() < 0.75:
+            return ['boom', self.ids('x'), rng.choice(self.VIA_CLASSES), 'm-' + self.ids('m'),
+                    rng.choice([0, 0, 0, 1, 2])]
+        return ['probe', self.ids('t')]
+
+    def via(self, depth, tdepth):
+        """A harness object evaluated by some other tag than a plain dtml-var."""
+        rng = self.rng
+        self.size += 1
+        carrier = rng.choice(CARRIERS)
+        form = rng.choice(carrier_forms(carrier))
+        home = rng.choice(HOMES) if form == 'name' and rng.random() < 0.5 else 'top'
+        if depth > 0 and len(self.subs) < 3 and carrier != 'entity' and rng.random() < 0.3:
+            key = 'r%d' % len(self.subs)
+            self.subs[key] = None      # reserve
+            self.subs[key] = self.block(depth - 1, tdepth)
+            target = ['sub', key, rng.choice(['var', 'var', 'call', 'fresh'])]
+        else:
+            target = self.via_simple_target(carrier)
+        body = els = None
+        if carrier in BLOCK_CARRIERS:
+            body = self.block(depth - 1, tdepth, n=1) if depth > 0 else [['probe', self.ids()]]
+            if carrier in ('if', 'elif') and rng.random() < 0.4:
+                els = [['probe', self.ids()]]
+        return ['via', carrier, form, home, target, body, els]
+
     def node(self, depth, tdepth, top=False):
         rng = self.rng
+        if self.size <= 40 and rng.random() < 0.10:
+            return self.via(depth, tdepth)
         self.size += 1
         if depth <= 0 or self.size > 40 or (not top and rng.random() < 0.30):
             return self.leaf()
@@ -1263,12 +1510,125 @@ def grid_loop_cases():
             yield {'part': 'loop-grid', 'tree': tree, 'subs': {}, 'renders': renders}
 
 
+# -- carrier grid: a raising / returning / completing harness object evaluated by every tag
+# that evaluates names or expressions, found in every kind of namespace layer, at every position
+# of a try
+VIA_TARGETS = ['probe', 'boom:E2', 'boom:KeyError', 'boom:Other', 'boom:AttributeError', 'boom:NameError',
+               'boom:IndexError', 'boom:LookupError', 'boom:TypeError', 'boom:NotFound', 'vboom',
+               'sub-var:raise KeyError', 'sub-var:raise E1', 'sub-var:return z', 'sub-var:return o',
+               'sub-var:return n', 'sub-var:return e', 'sub-var:text', 'sub-call:raise ValueError',
+               'sub-call:return e', 'sub-call:text', 'sub-fresh:raise IndexError', 'sub-fresh:text',
+               'proto:E2', 'proto:KeyError', 'proto:AttributeError']
+VIA_POSITIONS = ['body', 'body-named', 'handler', 'else', 'finally', 'loop']
+VIA_VBOOM_ENVS = [{'bx_a': ''}, {'bx_a': 'KeyError'}, {'bx_a': 'E1'}, {'bx_a': ''}, {'bx_a': 'AttributeError'}]
+
+
+def via_target(ids, subs, tkind):
+    """Target node of the named kind (sub-template bodies are registered in subs)."""
+    what, _, arg = tkind.partition(':')
+    if what == 'probe':
+        return ['probe', ids('t')]
+    if what == 'boom':
+        return ['boom', ids('x'), arg, 'm-via', 0]
+    if what == 'vboom':
+        return ['vboom', ids('x'), 'a']
+    if what == 'proto':
+        return ['pboom', ids('o'), arg, 'm-proto']
+    route = what.split('-')[1]
+    key = 'v%d' % len(subs)
+    verb, _, obj = arg.partition(' ')
+    blk = [['text', 'S:'], ['probe', ids('s')]]
+    if verb == 'raise':
+        blk.append(['raise', 'name' if resolve(obj) and obj not in CUSTOM else 'expr', obj,
+                    [['text', 'm-sub']]])
+    elif verb == 'return':
+        blk.append(['return', ('name', 'expr', 'qexpr', 'nameattr')[ids.n % 4], obj])
+    else:
+        # completes; catches something of its own on the way
+        blk.append(['try', [['boom', ids('x'), 'E1', 'm-in', 0]], [[['E3'], [['text', 'sh:'], einfo(ids)]]], None])
+    blk.append(['probe', ids('s')])
+    subs[key] = blk
+    return ['sub', key, route]
+
+
+def via_allowed(carrier, form, home, tkind):
+    if form != 'name' and home != 'top':
+        return False
+    if carrier == 'entity' and tkind.startswith('sub'):
+        return False        # entity insertion quotes HTML; sub-template text is full of it
+    if tkind.startswith('proto') and carrier not in PROTO_OF:
+        return False        # nothing says that these tags need text / truth / items of the value
+    return True
+
+
+def build_carrier_case(carrier, form, home, tkind, pos, idx):
+    ids = Ids()
+    subs = {}
+    target = via_target(ids, subs, tkind)
+    body = els = None
+    if carrier in BLOCK_CARRIERS:
+        body = [['text', 'V:'], ['probe', ids('v')], einfo(ids)]
+        if carrier in ('if', 'elif') and idx % 2:
+            els = [['text', 'VE:'], ['probe', ids('v')]]
+    via = ['via', carrier, form, home, target, body, els]
+    blk = [['probe', ids()], via, ['text', ';'], ['probe', ids()]]
+
+    def h(tag, names):
+        return [names, [['text', tag + ':'], ['probe', ids('h')], einfo(ids)]]
+    if pos == 'body':
+        tree = [['try', [['text', 'B:']] + blk,
+                 [h('HV', ['ValueError']), h('HL', ['LookupError']), h('H3', ['E3']), h('HB', [''])],
+                 [['text', 'E:'], ['probe', ids('e')]]]]
+    elif pos == 'body-named':
+        # what no handler names must leave through the finally of the enclosing try
+        tree = [['tryfin', [['try', [['text', 'B:']] + blk,
+                             [h('HV', ['ValueError']), h('H3', ['E3', 'IndexError'])],
+                             [['text', 'E:'], ['probe', ids('e')]]]],
+                 [['text', 'F:'], ['probe', ids('f')], einfo(ids)]]]
+    elif pos == 'handler':
+        tree = [['try', [['try', [['boom', ids('x'), 'Other', 'm-outer', 0]],
+                          [[['Other'], [['text', 'HO:'], einfo(ids)] + blk + [einfo(ids)]]], None]],
+                 [h('HL', ['LookupError']), h('HB', [''])], None]]
+    elif pos == 'else':
+        tree = [['tryfin', [['try', [['probe', ids('b')]], [h('HB', [''])], [['text', 'E:']] + blk]],
+                 [['text', 'F:'], ['probe', ids('f')]]]]
+    elif pos == 'finally':
+        tree = [['try', [['tryfin', [['probe', ids('b')], ['boom', ids('x'), 'E2', 'm-pend', 0]],
+                          [['text', 'F:'], einfo(ids)] + blk]],
+                 [h('H2', ['E2']), h('HK', ['KeyError', 'AttributeError']), h('HB', [''])], None]]
+    elif pos == 'loop':
+        tree = [['in', 2, [['try', [['text', 'B:']] + blk, [h('HL', ['LookupError']), h('HB', [''])],
+                            [['text', 'E:'], ['probe', ids('e')]]], ['text', ',']], None]]
+    else:
+        raise ValueError(pos)
+    case = {'part': 'carrier-grid', 'tree': [['probe', ids()]] + tree + [['text', '.'], ['probe', ids()]],
+            'subs': subs}
+    if tkind == 'vboom':
+        r = idx % len(VIA_VBOOM_ENVS)
+        case['renders'] = VIA_VBOOM_ENVS[r:] + VIA_VBOOM_ENVS[:r]
+    return case
+
+
+def grid_carrier_points():
+    """(index, carrier, form, home, target kind): the full product; the position of the tag
+    around a try is the sixth dimension (rotating with the index in the quick tier)."""
+    i = 0
+    for carrier in CARRIERS:
+        for form in carrier_forms(carrier):
+            for home in (HOMES if form == 'name' else ['top']):
+                for tkind in VIA_TARGETS:
+                    if via_allowed(carrier, form, home, tkind):
+                        yield i, carrier, form, home, tkind
+                        i += 1
+
+
 def rand_env(rng, rows=True):
     env = {}
     for v in VARS:
         env['cv_' + v] = rng.choice(VCLS + [None]) if rows else rng.choice(VCLS + [None, None, None])
         env['dv_' + v] = rng.choice(RET_KEYS)
-        env['bx_' + v] = rng.choice(['', '', '', 'E1', 'E2', 'Other', 'KeyError', 'E12'])
+        env['bx_' + v] = rng.choice(['', '', '', '', 'E1', 'E2', 'Other', 'KeyError', 'E12', 'IndexError',
+                                     'AttributeError'])
         env['tf_' + v] = rng.choice([0, 1])
         if rows:
             env['rows_' + v] = [rand_env(rng, rows=False) for _ in range(rng.choice([0, 1, 2, 3, 3]))]
@@ -1289,6 +1649,11 @@ class RandomVarTrees(RandomTrees):
         c['part'] = 'random-vars'
         c['renders'] = [rand_env(self.rng) for _ in range(nrenders)]
         return c
+
+    def via_simple_target(self, carrier=None):
+        if self.rng.random() < 0.5:
+            return ['vboom', self.ids('x'), self.rng.choice(VARS)]
+        return RandomTrees.via_simple_target(self, carrier)
 
     def leaf(self):
         rng = self.rng
